@@ -19,43 +19,58 @@ pub fn string_literals_from_ident<'a>(
   cddl: &'a CDDL<'a>,
   ident: &Identifier,
 ) -> Vec<&'a Type2<'a>> {
+  let is_literal = |t: &Type2| {
+    matches!(
+      t,
+      Type2::TextValue { .. }
+        | Type2::UTF8ByteString { .. }
+        | Type2::B16ByteString { .. }
+        | Type2::B64ByteString { .. }
+    )
+  };
   let mut literals = Vec::new();
-  for r in cddl.rules.iter() {
-    if let Rule::Type { rule, .. } = r {
-      if rule.name == *ident {
-        for tc in rule.value.type_choices.iter() {
-          match &tc.type1.type2 {
-            t @ Type2::TextValue { .. }
-            | t @ Type2::UTF8ByteString { .. }
-            | t @ Type2::B16ByteString { .. }
-            | t @ Type2::B64ByteString { .. } => literals.push(t),
-            Type2::Typename { ident, .. } => {
-              literals.append(&mut string_literals_from_ident(cddl, ident))
-            }
-            _ => continue,
-          }
-        }
-      }
-    }
-  }
-
+  literals_from_ident(cddl, ident, &is_literal, &mut Vec::new(), &mut literals);
   literals
 }
 
 /// Retrieve all numeric values from a given rule identifier. Used for
 /// proposed .cat control operator.
 pub fn numeric_values_from_ident<'a>(cddl: &'a CDDL<'a>, ident: &Identifier) -> Vec<&'a Type2<'a>> {
+  let is_literal = |t: &Type2| {
+    matches!(
+      t,
+      Type2::IntValue { .. } | Type2::UintValue { .. } | Type2::FloatValue { .. }
+    )
+  };
   let mut literals = Vec::new();
+  literals_from_ident(cddl, ident, &is_literal, &mut Vec::new(), &mut literals);
+  literals
+}
+
+/// Collect the literals among the type choices of the rules named `ident`,
+/// following type names. `path` holds the rule names being expanded, so a
+/// cyclic alias (`b = b`, or `a = b` with `b = a`) is not followed forever.
+fn literals_from_ident<'a>(
+  cddl: &'a CDDL<'a>,
+  ident: &Identifier,
+  is_literal: &dyn Fn(&Type2) -> bool,
+  path: &mut Vec<String>,
+  literals: &mut Vec<&'a Type2<'a>>,
+) {
+  let name = ident.to_string();
+  if path.contains(&name) {
+    return;
+  }
+  path.push(name);
+
   for r in cddl.rules.iter() {
     if let Rule::Type { rule, .. } = r {
       if rule.name == *ident {
         for tc in rule.value.type_choices.iter() {
           match &tc.type1.type2 {
-            t @ Type2::IntValue { .. }
-            | t @ Type2::UintValue { .. }
-            | t @ Type2::FloatValue { .. } => literals.push(t),
+            t if is_literal(t) => literals.push(t),
             Type2::Typename { ident, .. } => {
-              literals.append(&mut numeric_values_from_ident(cddl, ident))
+              literals_from_ident(cddl, ident, is_literal, path, literals)
             }
             _ => continue,
           }
@@ -64,7 +79,7 @@ pub fn numeric_values_from_ident<'a>(cddl: &'a CDDL<'a>, ident: &Identifier) -> 
     }
   }
 
-  literals
+  path.pop();
 }
 
 #[cfg(feature = "additional-controls")]
